@@ -101,6 +101,22 @@ class Region(object):
         if k == "var":
             if e.name in env:
                 return env[e.name]
+            consts = self.__dict__.get("_consts")
+            if consts is None:
+                # locals given one value outside every loop ( const int jlast = nf - 1; ) read as that value when the walk
+                # starts below their definition
+                try:
+                    consts = cfront.scalar_defs(self.func, constants_only=True) if self.func is not None else {}
+                except Exception:
+                    consts = {}
+                consts = {n: v for n, v in consts.items() if not any(x.k in ("idx", "member", "float", "cond") or (x.k == "un" and x.op in ("*", "&")) for x in cfront.ewalk(v))}
+                self._consts = consts
+            if e.name in consts and e.scope not in ("param",):
+                d = consts.pop(e.name)     # guard against cycles while expanding
+                try:
+                    return self.form(d, env)
+                finally:
+                    consts[e.name] = d
             return Poly.atom(e.name)
         if k == "cast":
             if e.op in ("IntegralCast",) or (e.ty or "").strip() in ("int", "unsigned int", "long", "unsigned short", "short"):
@@ -169,6 +185,14 @@ class Region(object):
                     b0, o0 = env[("ptr", b.name)]
                     return b0, o0 + off
                 return b, off
+            return None
+        if r.k == "idx" and r.ty and ("*" in r.ty or "[" in r.ty):
+            # a row of a multi-dimensional array:  g = gv[k]  points at the first cell of row k
+            v, subs = cfront.subscripts(r)
+            if v is not None and len(subs) <= len(inner_dims(v.ty)):
+                v, idx = self.flat_index(r, env)
+                if v is not None and idx is not None:
+                    return v, idx
             return None
         if r.k == "var" and r.ty and ("*" in r.ty or "[" in r.ty):
             if ("ptr", r.name) in env:
@@ -356,6 +380,12 @@ class Region(object):
                 c2 = dict(ctx, guards=ctx["guards"] + conj(s.cond, False))
                 self.walk(s.els, e2, c2)
             for n in set(e1) | set(e2):
+                if isinstance(n, tuple):   # local pointer alias: kept only when both branches agree
+                    if e1.get(n) == e2.get(n) and e1.get(n) is not None:
+                        env[n] = e1[n]
+                    else:
+                        env.pop(n, None)
+                    continue
                 if e1.get(n) != e2.get(n):
                     env[n] = unk(n)
                     self.drop_guards(ctx, n)
